@@ -1,4 +1,5 @@
 import Proofs.PreserveProv
+import Proofs.PreserveGenEq
 
 /-!
 # C04 — mutations reuse learned weights; an unchanged architecture computes the same function;
@@ -342,5 +343,167 @@ example : preserveT .slice .shrink false (⟨[2, 1, 1], [7, 8]⟩ : Tensor Nat) 
 example : SameArch [("w", (⟨[2], [1, 2]⟩ : Tensor Nat))] [("w", ⟨[2], [0, 0]⟩)] := by unfold SameArch; decide
 example : clone (α := Nat) ⟨[("w", ⟨[2], [0, 0]⟩)], []⟩ ⟨[("w", ⟨[2], [4, 5]⟩)], []⟩ = ⟨[("w", ⟨[2], [4, 5]⟩)], []⟩ := by decide
 example : clone (α := Nat) ⟨[("w", ⟨[3], [0, 0, 0]⟩)], []⟩ ⟨[("w", ⟨[2], [4, 5]⟩)], []⟩ = ⟨[("w", ⟨[3], [0, 0, 0]⟩)], []⟩ := by decide
+
+/-! ## the same statements over the definitions generated from the source text
+
+`Gen/PreserveGen.lean` is written by `harness/py2lean_preserve.py` from the source of
+`preserve_parameters`, `shrink_preserve_parameters`, `clone`, the `recreate_*` methods and
+`reinit_from_mutated` on every run; `Proofs/PreserveGenEq.lean` proves it equal to the model with the
+switches `NormPolicy.slice`, `BufPolicy.carry`.  A network is its `named_parameters()` and
+`named_buffers()`; `DistinctNames` (the names of one module's tensors are pairwise distinct) is what
+torch guarantees. -/
+section source_translation
+open PreserveGen
+
+/-- the names of a module's parameters and buffers are pairwise distinct -/
+abbrev DistinctNames (n : PyNet α) : Prop := (keys (n.named_parameters ++ n.named_buffers)).Nodup
+
+/-- every tensor (parameter or buffer) of the network, by name -/
+abbrev tensorsOf (n : PyNet α) : List (String × PyTensor α) := n.named_parameters ++ n.named_buffers
+
+theorem mem_allT {n : PyNet α} {key : String} {t : Tensor α} (h : (key, t) ∈ allT n) :
+    (key, ofM t) ∈ tensorsOf n := by
+  simp only [allT, toMs, List.mem_map] at h
+  obtain ⟨kt, hm, e⟩ := h
+  obtain ⟨rfl, rfl⟩ := Prod.mk.inj e
+  exact hm
+
+theorem allT_mem {n : PyNet α} {key : String} {t : PyTensor α} (h : (key, t) ∈ tensorsOf n) :
+    (key, toM t) ∈ allT n := by
+  simp only [allT, toMs, List.mem_map]
+  exact ⟨(key, t), h, rfl⟩
+
+/-- **`EvolvableModule.preserve_parameters` as written in the source**: every tensor — parameter or
+    buffer, norm layers included — that exists before and after (same rank) keeps its values on the
+    common index range and has the fresh network's values outside it. -/
+theorem C04_source_translation_common_box (old new res : PyNet α) (ho : DistinctNames old)
+    (hn : DistinctNames new) (h : EvolvableModule.preserve_parameters old new = some res)
+    (key : String) (o n : PyTensor α) (hko : pyLookup (tensorsOf old) key = some o)
+    (hkn : (key, n) ∈ tensorsOf new) (hwo : (toM o).WF) (hwn : (toM n).WF)
+    (hr : o.shape.length = n.shape.length) :
+    ∃ t, (key, t) ∈ tensorsOf res ∧ t.shape = n.shape ∧ (toM t).WF ∧
+      (∀ idx, inBounds (boxMin o.shape n.shape) idx = true → (toM t).get idx = (toM o).get idx) ∧
+      (∀ idx, inBounds (boxMin o.shape n.shape) idx = false → (toM t).get idx = (toM n).get idx) := by
+  obtain ⟨t, hm, hs, hw, hin, hout⟩ := C04_common_box .full (allT old) (allT new) (allT res)
+    (gen_preserve_parameters_all old new res ho hn h) key (toM o) (toM n)
+    (by rw [allT, lookup_toMs, hko]; rfl) (allT_mem hkn) (fun h => by cases h) hwo hwn hr
+    (fun h => by cases h)
+  exact ⟨ofM t, mem_allT hm, hs, hw, hin, hout⟩
+
+/-- **`EvolvableCNN.shrink_preserve_parameters` as written in the source**: the same, when the axes it
+    does not slice (2, 3, …) are unchanged. -/
+theorem C04_source_translation_shrink_common_box (old new res : PyNet α) (ho : DistinctNames old)
+    (hn : DistinctNames new) (h : EvolvableCNN.shrink_preserve_parameters old new = some res)
+    (key : String) (o n : PyTensor α) (hko : pyLookup (tensorsOf old) key = some o)
+    (hkn : (key, n) ∈ tensorsOf new) (hwo : (toM o).WF) (hwn : (toM n).WF)
+    (hr : o.shape.length = n.shape.length) (hd : o.shape.drop 2 = n.shape.drop 2) :
+    ∃ t, (key, t) ∈ tensorsOf res ∧ t.shape = n.shape ∧ (toM t).WF ∧
+      (∀ idx, inBounds (boxMin o.shape n.shape) idx = true → (toM t).get idx = (toM o).get idx) ∧
+      (∀ idx, inBounds (boxMin o.shape n.shape) idx = false → (toM t).get idx = (toM n).get idx) := by
+  obtain ⟨t, hm, hs, hw, hin, hout⟩ := C04_common_box .shrink (allT old) (allT new) (allT res)
+    (gen_shrink_preserve_parameters_all old new res ho hn h) key (toM o) (toM n)
+    (by rw [allT, lookup_toMs, hko]; rfl) (allT_mem hkn) (fun h => by cases h) hwo hwn hr
+    (fun _ => hd)
+  exact ⟨ofM t, mem_allT hm, hs, hw, hin, hout⟩
+
+/-- equal shapes ⇒ the WHOLE tensor is carried over (`param.data = old_param.data`), either function -/
+theorem C04_source_translation_equal_shape_whole (old new res : PyNet α) (ho : DistinctNames old)
+    (hn : DistinctNames new)
+    (h : EvolvableModule.preserve_parameters old new = some res ∨
+         EvolvableCNN.shrink_preserve_parameters old new = some res)
+    (key : String) (o n : PyTensor α) (hko : pyLookup (tensorsOf old) key = some o)
+    (hkn : (key, n) ∈ tensorsOf new) (hs : o.shape = n.shape) : (key, o) ∈ tensorsOf res := by
+  have hl : lookup (allT old) key = some (toM o) := by rw [allT, lookup_toMs, hko]; rfl
+  have hs' : (toM o).shape = (toM n).shape := hs
+  rcases h with h | h
+  · obtain ⟨t, ht, hm⟩ := preserveNet_mem (gen_preserve_parameters_all old new res ho hn h) (allT_mem hkn)
+    simp only [preserveKey, hl, preserveT_same_shape _ _ _ _ _ hs', Option.some.injEq] at ht
+    subst ht; exact mem_allT hm
+  · obtain ⟨t, ht, hm⟩ := preserveNet_mem (gen_shrink_preserve_parameters_all old new res ho hn h) (allT_mem hkn)
+    simp only [preserveKey, hl, preserveT_same_shape _ _ _ _ _ hs', Option.some.injEq] at ht
+    subst ht; exact mem_allT hm
+
+/-- names only the new network has are untouched; the result has exactly the new network's names -/
+theorem C04_source_translation_missing_key_fresh (old new res : PyNet α) (ho : DistinctNames old)
+    (hn : DistinctNames new) (h : EvolvableModule.preserve_parameters old new = some res) :
+    keys (tensorsOf res) = keys (tensorsOf new) ∧
+    ∀ (key : String) (n : PyTensor α), pyLookup (tensorsOf old) key = none → (key, n) ∈ tensorsOf new →
+      (key, n) ∈ tensorsOf res := by
+  obtain ⟨hk, hm⟩ := C04_missing_key_fresh .slice .full (allT old) (allT new) (allT res)
+    (gen_preserve_parameters_all old new res ho hn h)
+  refine ⟨?_, fun key n hko hkn => ?_⟩
+  · simpa [allT, keys_toMs] using hk
+  · exact mem_allT (hm key (toM n) (by rw [allT, lookup_toMs, hko]; rfl) (allT_mem hkn))
+
+/-- **an unchanged architecture** (same names and shapes of parameters and buffers): both carry functions
+    return the old network's state, all of it — any function of the state is unchanged -/
+theorem C04_source_translation_noop_same_state (old fresh : PyNet α) (hs : SameArchNet old fresh)
+    (ho : DistinctNames old) :
+    EvolvableModule.preserve_parameters old fresh = some old ∧
+    EvolvableCNN.shrink_preserve_parameters old fresh = some old ∧
+    ∀ {β : Type} (F : PyNet α → β), (EvolvableModule.preserve_parameters old fresh).map F = some (F old) := by
+  have h1 := gen_preserve_parameters_noop old fresh hs ho
+  exact ⟨h1, gen_shrink_preserve_parameters_noop old fresh hs ho, fun F => by rw [h1]; rfl⟩
+
+/-- **which state goes where**: `EvolvableCNN.recreate_network` and `EvolvableNetwork.recreate_encoder`
+    are the model's `recreate` with the repaired switches, old = the live `self.model` / `self.encoder`,
+    new = the network just built, `shrink_params` selecting the shrink variant -/
+theorem C04_source_translation_recreate_is_model (live fresh : PyNet α) (shrink : Bool)
+    (ho : DistinctNames live) (hn : DistinctNames fresh)
+    (h1 : ∀ kt ∈ (toState fresh).params, lookup (toState live).buffers kt.1 = none)
+    (h2 : ∀ kt ∈ (toState fresh).buffers, lookup (toState live).params kt.1 = none) :
+    (EvolvableCNN.recreate_network live shrink fresh).map toState =
+      recreate .slice .carry (if shrink then .shrink else .full) (toState live) (toState fresh) ∧
+    (EvolvableNetwork.recreate_encoder live fresh).map toState =
+      recreate .slice .carry .full (toState live) (toState fresh) := by
+  rw [gen_cnn_recreate_network_eq live fresh shrink ho hn, gen_recreate_encoder_eq live fresh ho hn,
+    recreateMerged_eq_recreate _ _ _ h1 h2, recreateMerged_eq_recreate _ _ _ h1 h2]
+  exact ⟨rfl, rfl⟩
+
+/-- the two parts of a multi-input encoder are each carried over from their own predecessor; an
+    unchanged architecture keeps both states -/
+theorem C04_source_translation_multi_input (fnet dense f0 f1 : PyNet α) :
+    EvolvableMultiInput.recreate_network fnet dense f0 f1 =
+      (match EvolvableModule.preserve_parameters fnet f0, EvolvableModule.preserve_parameters dense f1 with
+       | some a, some b => some (a, b)
+       | _, _ => none) ∧
+    (SameArchNet fnet f0 → SameArchNet dense f1 → DistinctNames fnet → DistinctNames dense →
+      EvolvableMultiInput.recreate_network fnet dense f0 f1 = some (fnet, dense)) := by
+  have e : EvolvableMultiInput.recreate_network fnet dense f0 f1 =
+      (match EvolvableModule.preserve_parameters fnet f0, EvolvableModule.preserve_parameters dense f1 with
+       | some a, some b => some (a, b)
+       | _, _ => none) := by
+    simp only [EvolvableMultiInput.recreate_network]
+    cases EvolvableModule.preserve_parameters fnet f0 <;>
+      cases EvolvableModule.preserve_parameters dense f1 <;> rfl
+  refine ⟨e, fun s1 s2 d1 d2 => ?_⟩
+  rw [e, gen_preserve_parameters_noop fnet f0 s1 d1, gen_preserve_parameters_noop dense f1 s2 d2]
+
+/-- **cloning / re-initialising from the mutated network**: when `cls(**init_dict)` rebuilds the same
+    architecture, `clone()` and `reinit_from_mutated` return the source network's state — any function
+    of the state is identical -/
+theorem C04_source_translation_clone_same_state (self fresh : PyNet α) (hs : SameArchNet fresh self)
+    (hd : DistinctNames self) :
+    EvolvableModule.clone self fresh = some self ∧
+    Mutations.reinit_from_mutated self fresh = some self ∧
+    ∀ {β : Type} (F : PyNet α → β), (EvolvableModule.clone self fresh).map F = some (F self) := by
+  have h1 := gen_clone_eq self fresh hs hd
+  exact ⟨h1, gen_reinit_from_mutated_eq self fresh hs hd, fun F => by rw [h1]; rfl⟩
+
+/-- non-vacuity: the hypotheses hold on a concrete pair and the generated function computes the
+    expected tensors (a `[2,3]` weight grown to `[3,4]`, an added bias, a resized running mean) -/
+example : DistinctNames (⟨[("w", ⟨[2, 3], [1, 2, 3, 4, 5, 6]⟩)], [("m", ⟨[2], [7, 8]⟩)]⟩ : PyNet Nat) := by decide
+example : EvolvableModule.preserve_parameters
+      (⟨[("w", ⟨[2, 3], [1, 2, 3, 4, 5, 6]⟩)], [("m", ⟨[2], [7, 8]⟩)]⟩ : PyNet Nat)
+      ⟨[("w", ⟨[3, 4], [0, 0, 0, 0, 0, 0, 0, 0, 0, 0, 0, 0]⟩), ("b", ⟨[3], [9, 9, 9]⟩)], [("m", ⟨[3], [0, 0, 0]⟩)]⟩ =
+    some ⟨[("w", ⟨[3, 4], [1, 2, 3, 0, 4, 5, 6, 0, 0, 0, 0, 0]⟩), ("b", ⟨[3], [9, 9, 9]⟩)], [("m", ⟨[3], [7, 8, 0]⟩)]⟩ := by
+  have : ∀ a b : Option (PyNet Nat), a.map toState = b.map toState → a = b := by
+    intro a b h
+    cases a <;> cases b <;> simp at h ⊢
+    exact toState_inj h
+  apply this
+  decide
+
+end source_translation
 
 end Preserve
